@@ -62,7 +62,7 @@ func runC01(c *Ctx) {
 		e.Run()
 	}
 	c.Meta(map[string]interface{}{
-		"rule": "breadth-first search over all call histories up to the stated depth from a fixed alphabet (inserts with forced key/index collisions, updates, deletes, batches, search-delete, reopen/abandon, flush family, reads as transitions) under each configuration; after every history the complete non-search read sweep (Count, All, AssignAll, Get/GetByUUID/Exist for every stored, deleted and never-stored id, twice) is compared with the reference map. A state is distinct by the canonical dump of the whole handle + file system + model; non-trivial = reached by at least one accepted write.",
+		"rule":     "breadth-first search over all call histories up to the stated depth from a fixed alphabet (inserts with forced key/index collisions, updates, deletes, batches, search-delete, reopen/abandon, flush family, reads as transitions) under each configuration; after every history the complete non-search read sweep (Count, All, AssignAll, Get/GetByUUID/Exist for every stored, deleted and never-stored id, twice) is compared with the reference map. A state is distinct by the canonical dump of the whole handle + file system + model; non-trivial = reached by at least one accepted write.",
 		"alphabet": alphabetC01(Cfg{}, c.Tier),
 		"configs":  cfgs,
 		"depth":    depth,
